@@ -12,7 +12,7 @@ FORMS = [('#x', True), ('//x', True), ('/*x*/', False), ('/* multi\n line */', F
          ('#### hh', True), ('   ', False), ('\n\n', False), ('\t', False), ('/* "q" \'s\' ${v} { } = , */', False), ('# "unbalanced', True), ('/***/', False),
          ('# ' + 'long comment ' * 4, True), ('/* ' + 'block comment text ' * 5 + '*/', False), ('//' + 'x' * 33, True),
          ('/* a * b */', False), ('/** doc */', False), ('/*** x ***/', False), ('/* 2*3 / 4 */', False), ('/* star*\n *next */', False),
-         ('#!glued to the token before it', True)]      # ('#!' = written without the blank in front: a '#' ends any token)
+         ('#!glued to the token before it', True), ('# a \r inside = { ,', True), ('// cr \r } = x', True)]      # ('#!' = written without the blank in front: a '#' ends any token)
 ANN = [('# hello world', True, 'hello world'), ('// slashes', True, 'slashes'), ('/* c style */', False, 'c style'),
        ('/*  multi\n   line  */', False, 'multi\n   line'), ('####   hashes  ', True, 'hashes'), ('////deep', True, 'deep'), ('/*tight*/', False, 'tight'),
        ('#/etc/app conf', True, '/etc/app conf'), ('//#42 hash', True, '#42 hash'), ('# open /* only', True, 'open /* only'),
